@@ -1264,7 +1264,12 @@ class Interp:
         if other:
             kind = 'callback_extra' if self.enabled else \
                 'delivered_while_disabled'
-            self.fail(('C02',), kind, f'process: unexpected {other}')
+            # (a removal callback nobody asked this frame for: a deletion
+            # requested during the pass was carried out by the same pass)
+            own = ('C02', 'C05') if any(
+                e[0] == 'life' and e[2] == 'on_remove' for e in other) \
+                else ('C02',)
+            self.fail(own, kind, f'process: unexpected {other}')
         if boom is not None:
             want = want[:len(got)]
             self.failed_frames = getattr(self, 'failed_frames', 0) + 1
